@@ -13,6 +13,17 @@ for i in ids:
     meta = json.load(open(f'{d}/meta.json'))
     prop = meta['property']
     props = [p for p in [prop] + EXTRA.get(prop, []) if p in claimed]
+    # plus every property decided by a unit that extracts code from a file the change touches
+    import re as _re
+    changed = set(_re.findall(r'^\+\+\+ b/(\S+)', open(f'{d}/patch.diff').read(), _re.M))
+    units = json.load(open('/verif/units/units.json'))
+    for un, ud in units.items():
+        txt = open(os.path.join('/verif', ud['template'])).read()
+        files = set(_re.findall(r'/\*@ extract (\S+)', txt)) | set(_re.findall(r'^[ \t]*//@item (\S+)', txt, _re.M))
+        if files & changed:
+            for p in ud['properties']:
+                if p in claimed and p not in props and p not in ('C11', 'C12'):
+                    props.append(p)
     import shutil
     env_extra = {}
     if INPLACE:
